@@ -10,6 +10,7 @@ pub mod c19;
 pub mod ivp;
 pub mod c03;
 pub mod c01;
+pub mod c13;
 
 pub struct Tier {
     pub thorough: bool,
@@ -56,6 +57,55 @@ macro_rules! run_h {
     }};
 }
 
+pub type Job<'a> = (crate::eng::Cfg, Box<dyn Fn() + Sync + Send + 'a>, Box<dyn Fn() + Sync + Send + 'a>);
+
+/// queue a harness for `run_jobs` (many small harnesses run side by side, one solver thread each)
+#[macro_export]
+macro_rules! job {
+    ($jobs:expr, $cfg:expr, $f:ident $(, $arg:expr)*) => {{
+        let cfg = $cfg;
+        $jobs.push((cfg, Box::new(move || $f::<$crate::sym::Sym>($($arg.clone()),*)) as Box<dyn Fn() + Sync + Send>, Box::new(move || $f::<f64>($($arg.clone()),*)) as Box<dyn Fn() + Sync + Send>));
+    }};
+}
+
+pub fn run_jobs(pr: &mut PropRun, jobs: Vec<Job>, threads: usize) {
+    use std::sync::atomic::{AtomicUsize, Ordering};
+    use std::sync::Mutex;
+    if let Some(rt) = pr.replay.clone() {
+        for (cfg, _s, n) in jobs.iter() {
+            if cfg.name == rt.0 {
+                pr.replay_out = Some(crate::eng::run_native(&rt.1, &rt.2, &**n));
+            }
+        }
+        return;
+    }
+    let only = pr.only.clone();
+    let jobs: Vec<Job> = jobs.into_iter().filter(|j| only.as_ref().map_or(true, |o| j.0.name.contains(o.as_str()))).collect();
+    let next = AtomicUsize::new(0);
+    let out: Mutex<Vec<(usize, crate::eng::Report)>> = Mutex::new(vec![]);
+    std::thread::scope(|sc| {
+        for _ in 0..threads.max(1) {
+            sc.spawn(|| loop {
+                let i = next.fetch_add(1, Ordering::SeqCst);
+                if i >= jobs.len() {
+                    break;
+                }
+                let (cfg, s, n) = &jobs[i];
+                let mut c = cfg.clone();
+                c.threads = 1;
+                let rep = crate::eng::explore(&c, &**s, &**n);
+                out.lock().unwrap().push((i, rep));
+            });
+        }
+    });
+    let mut v = out.into_inner().unwrap();
+    v.sort_by_key(|x| x.0);
+    let quiet = v.len() > 24;
+    for (_, r) in v {
+        pr.add_q(r, quiet);
+    }
+}
+
 pub fn run_property(id: &str, t: &Tier, replay: Option<(String, std::collections::HashMap<String, f64>, Vec<crate::eng::TapeSample>)>, only: Option<String>) -> Option<PropRun> {
     let tier = if t.thorough { "thorough" } else { "quick" };
     let mut pr = PropRun::new(id, tier, t.seed);
@@ -67,6 +117,7 @@ pub fn run_property(id: &str, t: &Tier, replay: Option<(String, std::collections
         "C19" => c19::run(&mut pr, t),
         "C03" => c03::run(&mut pr, t),
         "C01" => c01::run(&mut pr, t),
+        "C13" => c13::run(&mut pr, t),
         _ => return None,
     }
     let _ = explore;
